@@ -120,8 +120,35 @@ func quote(v string) string {
 }
 
 // program places the value; returns the text and the (0-based) line / byte column where the quoted value starts.
+// bare reports whether v can be written as an unquoted D2 value that the parser reads back as the same text.
+func bare(v string) bool {
+	if v == "" || strings.EqualFold(v, "null") || strings.EqualFold(v, "suspend") || strings.EqualFold(v, "unsuspend") || strings.EqualFold(v, "true") || strings.EqualFold(v, "false") {
+		return false
+	}
+	for i, c := range v {
+		ok := c >= '0' && c <= '9' || c >= 'a' && c <= 'z' || c >= 'A' && c <= 'Z' || c == '.' || c == '/' || c == '_'
+		if i == 0 && (c == '+' || c == '-') && len(v) > 1 {
+			ok = true
+		}
+		if !ok {
+			return false
+		}
+	}
+	return true
+}
+
 func program(area, kw, place, v string) (string, int, int, int) {
 	q := quote(v)
+	if strings.HasPrefix(place, "bare-") {
+		q = v
+		place = strings.TrimPrefix(place, "bare-")
+	}
+	kwText := kw
+	if strings.HasPrefix(place, "kwcase:") {
+		// the keyword is written in another letter case; the value is judged against the lower-case keyword's domain
+		kwText = strings.TrimPrefix(place, "kwcase:")
+		place = "shape"
+	}
 	var pre, post string
 	switch area {
 	case "style":
@@ -129,7 +156,7 @@ func program(area, kw, place, v string) (string, int, int, int) {
 			pre = "a -> b: {style." + kw + ": "
 			post = "}\n"
 		} else {
-			pre = "x: {style." + kw + ": "
+			pre = "x: {style." + kwText + ": "
 			post = "}\n"
 		}
 	case "reserved":
@@ -141,7 +168,7 @@ func program(area, kw, place, v string) (string, int, int, int) {
 		case kw == "shape":
 			pre, post = "x: {shape: ", "; icon: https://icons.example/a.png}\n"
 		default:
-			pre, post = "x: {"+kw+": ", "}\n"
+			pre, post = "x: {"+kwText+": ", "}\n"
 		}
 	case "config":
 		pre, post = "vars: {d2-config: {"+kw+": ", "}}\nx\n"
@@ -156,6 +183,11 @@ func program(area, kw, place, v string) (string, int, int, int) {
 
 func observeCompile(area, kw, place, v string) map[string]any {
 	text, line, col, decl := program(area, kw, place, v)
+	fullPlace := place
+	place = strings.TrimPrefix(place, "bare-")
+	if strings.HasPrefix(place, "kwcase:") {
+		place = "shape"
+	}
 	out := map[string]any{}
 	var g *d2graph.Graph
 	var err error
@@ -191,7 +223,7 @@ func observeCompile(area, kw, place, v string) map[string]any {
 	})
 	if oc != "ok" {
 		out["panic"] = oc
-		return map[string]any{"k": "compile", "in": map[string]any{"area": area, "kw": kw, "place": place, "v": hl.Hx([]byte(v))}, "out": out}
+		return map[string]any{"k": "compile", "in": map[string]any{"area": area, "kw": kw, "place": fullPlace, "v": hl.Hx([]byte(v))}, "out": out}
 	}
 	if err != nil {
 		out["accept"] = false
@@ -276,7 +308,7 @@ func observeCompile(area, kw, place, v string) map[string]any {
 		}
 		out["stored"] = hl.Hx([]byte(stored))
 	}
-	return map[string]any{"k": "compile", "in": map[string]any{"area": area, "kw": kw, "place": place, "v": hl.Hx([]byte(v))}, "out": out}
+	return map[string]any{"k": "compile", "in": map[string]any{"area": area, "kw": kw, "place": fullPlace, "v": hl.Hx([]byte(v))}, "out": out}
 }
 
 // rangeCovers: the error is positioned at the value, or at the `key: value` declaration that carries it
@@ -291,6 +323,8 @@ var intish = []string{"0", "1", "-1", "-0", "+0", "+5", "7", "8", "9", "10", "11
 var floatish = []string{"0", "1", "0.0", "1.0", "0.5", ".5", "5.", "1.", ".", "-0", "-0.0", "+1", "+.5", "1.0000000000000000000001", "1.0000000000000002", "1.00000000000000011102230246251565", "1.0000000000000001110223024625156541", "0.99999999999999999999", "-0.0000000000000000000000001", "-1e-400", "1e-400", "4.9e-324", "2e-324", "1e0", "1E0", "10e-1", "10e-2", "1e1", "0x1p0", "0x1p-1", "0x1.8p-1", "0x.8p1", "0x1p1", "0X1P-2", "0x1", "0x1p", "1p0", "1_0", "0_1", "0._5", "0.5_", "_0.5", "0x_1p0", "0x1_0p-8", "1__0", "NaN", "nan", "NAN", "+nan", "-nan", "Inf", "inf", "+Inf", "-inf", "infinity", "Infinity", "-INFINITY", "infinit", "in", "1e309", "1e308", "1.8e308", "1.797693134862315708145274237317043567981e+308", "-1e309", "1e999999999", "1e-999999999", "0e999999999", "١", "1,5", "1 ", " 1", "", "e1", "1e+", "1e-", "0x", "0xp1", "1.5.5", "2", "1.1", "-0.1", "0.1.", "1f", "1d"}
 var boolish = []string{"true", "false", "True", "False", "TRUE", "FALSE", "t", "f", "T", "F", "1", "0", "tRUE", "yes", "no", "on", "off", "", " true", "true ", "2", "-1", "01", "tr", "nil", "null"}
 var colorish = []string{"red", "RED", "Red", "rEd", "blue", "transparent", "honeydew", "rebeccapurple", "currentcolor", "none", "inherit", "#fff", "#FFF", "#ffffff", "#FFFFFF", "#f0ff3a", "#ffff", "#fffff", "#fffffff", "#ffffffff", "#ggg", "#12", "#", "fff", "ffffff", "# fff", "#fff ", " #fff", "rgb(1,2,3)", "rgba(1,2,3,0.5)", "hsl(10,10%,10%)", "N1", "B4", "AA2", "", "re d", "red;", "#FfF", "#abcdef", "#ABCDEF", "#abcdeg", "#١٢٣", "grey", "gray", "darkgrey", "lightgoldenrodyellow", "ſalmon"}
+
+var cssNamed = strings.Fields("aliceblue antiquewhite aqua aquamarine azure beige bisque black blanchedalmond blue blueviolet brown burlywood cadetblue chartreuse chocolate coral cornflowerblue cornsilk crimson cyan darkblue darkcyan darkgoldenrod darkgray darkgrey darkgreen darkkhaki darkmagenta darkolivegreen darkorange darkorchid darkred darksalmon darkseagreen darkslateblue darkslategray darkslategrey darkturquoise darkviolet deeppink deepskyblue dimgray dimgrey dodgerblue firebrick floralwhite forestgreen fuchsia gainsboro ghostwhite gold goldenrod gray grey green greenyellow honeydew hotpink indianred indigo ivory khaki lavender lavenderblush lawngreen lemonchiffon lightblue lightcoral lightcyan lightgoldenrodyellow lightgray lightgrey lightgreen lightpink lightsalmon lightseagreen lightskyblue lightslategray lightslategrey lightsteelblue lightyellow lime limegreen linen magenta maroon mediumaquamarine mediumblue mediumorchid mediumpurple mediumseagreen mediumslateblue mediumspringgreen mediumturquoise mediumvioletred midnightblue mintcream mistyrose moccasin navajowhite navy oldlace olive olivedrab orange orangered orchid palegoldenrod palegreen paleturquoise palevioletred papayawhip peachpuff peru pink plum powderblue purple rebeccapurple red rosybrown royalblue saddlebrown salmon sandybrown seagreen seashell sienna silver skyblue slateblue slategray slategrey snow springgreen steelblue tan teal thistle tomato turquoise violet wheat white whitesmoke yellow yellowgreen transparent currentcolor muintcream")
 
 func enumish(r *rand.Rand, vals []string) []string {
 	out := []string{"", " ", "x", "nonee", "non"}
@@ -350,6 +384,12 @@ func valuesFor(r *rand.Rand, area, kw string, nrand int) []string {
 		vs = append(vs, intish...)
 	case area == "style" && (kw == "stroke" || kw == "fill" || kw == "font-color"):
 		vs = append(vs, colorish...)
+		vs = append(vs, cssNamed...)
+		for _, n := range cssNamed {
+			if r.Intn(4) == 0 {
+				vs = append(vs, strings.ToUpper(n[:1])+n[1:])
+			}
+		}
 	case kw == "fill-pattern":
 		vs = enumish(r, fillPatterns)
 	case kw == "text-transform":
@@ -423,6 +463,55 @@ func run(c *hl.Ctx) error {
 		for _, v := range valuesFor(r, "config", kw, ncr) {
 			c.Emit(observeCompile("config", kw, "config", v))
 			c.Count("compile:config:" + kw)
+			if bare(v) {
+				c.Emit(observeCompile("config", kw, "bare-config", v))
+				c.Count("compile:config-bare:" + kw)
+			}
+		}
+	}
+	// unquoted number-like literals (the parser classifies them as numbers: 1e2, 3.0, 6/2, 0x65, 0100 …)
+	numLits := []string{"1e2", "1E2", "3.0", "6/2", "400/2", "0x65", "0100", "010", "1_0", "1e0", "2e0", "0.5e1", "5e-1", "+3", "-3", "-0", "0x1p4", "08", "1.5", "100", "7", "15", "16", "0"}
+	for _, kw := range []string{"theme-id", "dark-theme-id", "pad"} {
+		for _, v := range numLits {
+			c.Emit(observeCompile("config", kw, "bare-config", v))
+			c.Count("compile:config-bare-num:" + kw)
+		}
+	}
+	for _, kw := range []string{"width", "height", "top", "left", "grid-rows", "grid-columns", "grid-gap", "vertical-gap", "horizontal-gap"} {
+		for _, v := range numLits {
+			c.Emit(observeCompile("reserved", kw, "bare-shape", v))
+			c.Count("compile:reserved-bare-num:" + kw)
+		}
+	}
+	for _, kw := range []string{"opacity", "stroke-width", "stroke-dash", "border-radius", "font-size"} {
+		for _, v := range numLits {
+			c.Emit(observeCompile("style", kw, "bare-shape", v))
+			c.Emit(observeCompile("style", kw, "bare-edge", v))
+			c.Count("compile:style-bare-num:" + kw)
+		}
+	}
+	// keywords written in another letter case: either rejected as unknown or validated like the lower-case keyword
+	caseVar := func(kw string) []string {
+		out := []string{strings.ToUpper(kw), strings.ToUpper(kw[:1]) + kw[1:]}
+		b := []byte(kw)
+		for i := range b {
+			if r.Intn(2) == 0 && b[i] >= 'a' && b[i] <= 'z' {
+				b[i] -= 32
+			}
+		}
+		return append(out, string(b))
+	}
+	for _, kw := range styleKws {
+		vals := valuesFor(r, "style", kw, 0)
+		for _, kv := range caseVar(kw) {
+			if kv == kw {
+				continue
+			}
+			for j := 0; j < 12 && j < len(vals); j++ {
+				v := vals[r.Intn(len(vals))]
+				c.Emit(observeCompile("style", kw, "kwcase:"+kv, v))
+				c.Count("compile:style-kwcase")
+			}
 		}
 	}
 	return nil
